@@ -22,8 +22,10 @@ What the code does and the ledger does not (reported, and stated as theorems in 
   unbounded (beyond 64 bits cbor2 writes bignum tags, which `transaction_metadatum` does not have); labels may be negative.
 * nothing is validated on DECODE (`from_primitive` builds an empty `Metadata` and assigns item by item: `__setitem__`
   checks `int` keys only), nor after `m[k] = v`.
-* `ShelleyMarryMetadata.native_scripts` is declared without `"optional": True`: the default `None` is written as `null`
-  (`[metadata, null]`, not CDDL) and cannot be decoded (`list_hook` iterates `None`: `TypeError`).
+* `ShelleyMarryMetadata.native_scripts` is declared without `"optional": True`: a `None` there is written as `null`
+  (`[metadata, null]`, not CDDL) and `null` cannot be decoded (`list_hook` iterates `None`: `TypeError`).  Since 68fc5c3 the
+  constructor (`__post_init__`) turns `None` into `[]` (`normShelleyMa`), so no constructed or decoded object holds `None`;
+  only an attribute assigned afterwards, or a foreign `[metadata, null]`, meets that path.
 
 Deviations of the model (none reachable from an object the library serializes; the differential run does not generate
 them): a label that is a Python `bool` (`True == 1`) is not a label here; duplicate keys of a nested CBOR map are collapsed
@@ -186,11 +188,16 @@ structure ShelleyMa (N : Type) where
   metadata : Metadata
   native : Option (List N)
 
+/-- `ShelleyMarryMetadata.__post_init__`: `if self.native_scripts is None: self.native_scripts = []`.  Every constructed (and
+every decoded: the decoder goes through the constructor) object is of the form `normShelleyMa s`; an attribute assigned after
+construction is not normalised. -/
+def normShelleyMa (s : ShelleyMa N) : ShelleyMa N := ⟨s.metadata, some (s.native.getD [])⟩
+
 /-- a list of native scripts: each its own `to_primitive` -/
 def itemScripts (L : Leaf N) (ns : List N) : Item := .array (ns.map L.enc)
 
-/-- `ArrayCBORSerializable.to_shallow_primitive`: `native_scripts` carries `object_hook` but NOT `"optional": True`, so
-`None` is appended and written as `null` -/
+/-- `ArrayCBORSerializable.to_shallow_primitive`: `native_scripts` carries `object_hook` but NOT `"optional": True`, so a
+`None` (assigned after construction) is appended and written as `null` -/
 def itemShelleyMa (L : Leaf N) (s : ShelleyMa N) : Item :=
   .array [itemMetadata s.metadata, match s.native with | some ns => itemScripts L ns | Option.none => .simple 22]
 
@@ -220,12 +227,13 @@ def decScripts (L : Leaf N) : Item → Res (List N)
 
 /-- `ArrayCBORSerializable.from_primitive` for `ShelleyMarryMetadata`: `@limit_primitive_type(list, tuple, IndefiniteList)`;
 the items are zipped with the fields and restored in order (`Metadata.from_primitive`, the hook); a missing second item
-leaves the default `None`, a missing first one is a `TypeError` of the constructor, extra items become `unknown_field`s -/
+leaves the default `None`, which `__post_init__` turns into `[]`; a missing first one is a `TypeError` of the constructor,
+extra items become `unknown_field`s -/
 def decShelleyMa (L : Leaf N) (i : Item) : Res (ShelleyMa N) :=
   match listElems? i with
   | Option.none => .deser
   | some [] => .crash
-  | some [m] => Res.bind (decMetadata m) fun md => .ok ⟨md, Option.none⟩
+  | some [m] => Res.bind (decMetadata m) fun md => .ok (normShelleyMa ⟨md, Option.none⟩)
   | some (m :: s :: _) => Res.bind (decMetadata m) fun md => Res.bind (decScripts L s) fun ns => .ok ⟨md, some ns⟩
 
 /-! ## `AlonzoMetadata` (a `MapCBORSerializable` behind tag 259) -/
@@ -313,6 +321,17 @@ inductive Aux (N : Type) where
   | shelley (m : Metadata)
   | shelleyMa (s : ShelleyMa N)
   | alonzo (a : Alonzo N)
+
+/-- what the constructors make of their arguments (only `ShelleyMarryMetadata` has a `__post_init__`) -/
+def normAux : Aux N → Aux N
+  | .shelley m => .shelley m
+  | .shelleyMa s => .shelleyMa (normShelleyMa s)
+  | .alonzo a => .alonzo a
+
+/-- the object is one a constructor (or the decoder) can have produced -/
+def constructedB : Aux N → Bool
+  | .shelleyMa s => s.native.isSome
+  | _ => true
 
 /-- `AuxiliaryData.to_primitive`: `self.data.to_primitive()` -/
 def itemAux (L : Leaf N) : Aux N → Item
@@ -444,13 +463,12 @@ end
 def specOkM (m : Metadata) : Bool :=
   m.all (fun p => decide (0 ≤ p.1) && decide (p.1 < 18446744073709551616) && specOkV p.2)
 
-/-- the hypotheses of the round-trip theorem, executable: distinct labels, no `raw` leaves, and a script list where the
-Shelley-MA form has one -/
+/-- the hypotheses of the round-trip theorem, executable: distinct labels, no `raw` leaves -/
 def okM (m : Metadata) : Bool := distinctLabels m && plainM m
 
 def auxOkB : Aux N → Bool
   | .shelley m => okM m
-  | .shelleyMa s => okM s.metadata && s.native.isSome
+  | .shelleyMa s => okM s.metadata
   | .alonzo a => (match a.metadata with | some m => okM m | Option.none => true)
 
 def auxSpecOkB : Aux N → Bool
